@@ -44,6 +44,7 @@ class Mol:
         self.ring_labels = []      # (label, i, j) in closing order
         self.max_open = 0
         self.max_depth = 0
+        self.digit_after_branch = False   # 'C(Cl)1...': accepted by most readers, outside the OpenSMILES grammar
 
     def bond_sum(self, i):
         return sum(o for (a, b), o in self.bonds.items() if a == i or b == i)
@@ -97,6 +98,7 @@ def read(smiles):
     open_rings = {}      # label -> (atom, bondchar, slot index in nbrs)
     pending = None       # pending bond char
     expect_atom = True   # at start / after '(' / after '.'
+    branched = set()     # atoms that already had a branch closed
     while i < n:
         c = smiles[i]
         if c in BOND_ORDER:
@@ -120,6 +122,7 @@ def read(smiles):
             if pending is not None or not stack or expect_atom:
                 raise SmilesError("bad_close_paren", i)
             prev = stack.pop()
+            branched.add(prev)
             i += 1
             continue
         if c == ".":
@@ -145,6 +148,8 @@ def read(smiles):
                 i += 1
             if prev is None or expect_atom:
                 raise SmilesError("ring_without_atom", i)
+            if prev in branched:
+                mol.digit_after_branch = True
             if label in open_rings:
                 a, bc, slot = open_rings.pop(label)
                 b = prev
